@@ -247,6 +247,9 @@ func buildIntrinsics() map[string]Intrinsic {
 			c := m.concretize(fr, v, "vConcrete")
 			return m.tf.Const(v.W, c)
 		}
+		t[p+"vSlack"] = func(m *Machine, fr *Frame, fn *ssa.Function, a []Value) Value {
+			return m.tf.Const(64, 0)
+		}
 		t[p+"vGhostElapsed"] = func(m *Machine, fr *Frame, fn *ssa.Function, a []Value) Value {
 			return m.tf.Const(64, uint64(m.clock))
 		}
